@@ -89,7 +89,7 @@ func propC25PolicyStateMachine(t testing.TB) {
 		// pre-existing file content
 		var lines []string
 		classes := map[string]bool{}
-		style := rapid.SampledFrom([]string{"canonical", "canonical", "canonical", "spaces", "no-trailing-newline", "comments", "empty", "missing"}).Draw(t, "style")
+		style := rapid.SampledFrom([]string{"canonical", "canonical", "canonical", "spaces", "no-trailing-newline", "comments", "comments", "empty", "missing"}).Draw(t, "style")
 		classes["file:"+style] = true
 		eq := "="
 		if style == "spaces" {
@@ -135,6 +135,16 @@ func propC25PolicyStateMachine(t testing.TB) {
 			}
 			if style == "comments" {
 				lines = append([]string{"; managed by peerswap", ""}, lines...)
+				// commented-out settings an operator left in the file: they are not entries
+				for _, pk := range pkPool()[:2] {
+					if rapid.Bool().Draw(t, "commented-"+pk[60:]) {
+						lines = append(lines, "# allowlisted_peers"+eq+pk, ";suspicious_peers"+eq+pk)
+						classes["file-has-commented-entry"] = true
+					}
+				}
+				if rapid.Bool().Draw(t, "commentedFlag") {
+					lines = append(lines, ";allow_new_swaps"+eq+"false", "# allow_new_swaps"+eq+"true")
+				}
 				lines = append(lines, "# end")
 			}
 		}
